@@ -217,15 +217,17 @@ def handle : Handler
   | "c20.spec_dendrogram", toks => some <| Option.getD (do
       let kv := kvOf toks
       some (specAnswer kv (← doc? kv) (expectedDendrogram (← dendroArgs? kv)))) "bad-args"
-  -- the file written has the content returned
-  | "c20.spec_same", toks => some <| Option.getD (do
+  -- the file written, decoded as UTF-8 by the strict decoder of the specification, is the returned string
+  | "c20.spec_file", toks => some <| Option.getD (do
       let kv := kvOf toks
       let a ← doc? kv
-      let b ← match get kv "file" with
+      let b ← match get kv "bytes" with
         | some "-" => some []
         | some v => (v.splitOn ",").mapM String.toNat?
         | none => none
-      some (if a == b then "holds" else "fails file-differs")) "bad-args"
+      some (match utf8Decode b with
+        | some s => if s == a then "holds" else "fails file-differs"
+        | none => "fails file-is-not-utf8")) "bad-args"
   | "c20.wf", toks => some <| Option.getD (do
       let d ← doc? (kvOf toks)
       some (if wf d then "holds" else "fails")) "bad-args"
